@@ -108,7 +108,7 @@ class Source:
 
     def impls(self):
         """yield (header_text_normalised, header_start, body_open, body_close)"""
-        for m in re.finditer(r'(?m)^[ \t]*(?:unsafe\s+)?impl\b', self.masked[:self.limit]):
+        for m in re.finditer(r'(?m)^[ \t]*(?:(?:unsafe\s+)?impl|(?:pub(?:\s*\([^)]*\))?\s+)?trait)\b', self.masked[:self.limit]):
             start = m.start() + len(m.group(0)) - len(m.group(0).lstrip())
             k = self.masked.find('{', m.end())
             # skip const-generic brace expressions in header, e.g. Ba<{ (..) as usize }>: detect
